@@ -1986,6 +1986,7 @@ func (mvcc *MVCCLevelDB) RawDeleteRange(cf string, startKey, endKey []byte) {
 }
 
 // RawCompareAndSwap supports CAS function(write newValue if expectedValue equals value stored in db).
+// A nil expectedValue stands for "previous value does not exist"; a nil oldValue is returned when the key does not exist.
 // `oldValue` and `swapped` returned specify the old value stored in db and whether CAS has happened.
 func (mvcc *MVCCLevelDB) RawCompareAndSwap(cf string, key, expectedValue, newValue []byte,
 ) (oldValue []byte, swapped bool, err error) {
@@ -2003,12 +2004,18 @@ func (mvcc *MVCCLevelDB) RawCompareAndSwap(cf string, key, expectedValue, newVal
 	}
 
 	oldValue, err = db.Get(key, nil)
-	if err != nil {
+	if err == leveldb.ErrNotFound {
+		// a nil oldValue means the key does not exist
+		oldValue, err = nil, nil
+	} else if err != nil {
 		tikverr.Log(err)
 		return nil, false, errors.WithStack(err)
+	} else if oldValue == nil {
+		oldValue = []byte{}
 	}
 
-	if !bytes.Equal(oldValue, expectedValue) {
+	// a nil expectedValue means "the key is expected not to exist"
+	if (oldValue == nil) != (expectedValue == nil) || !bytes.Equal(oldValue, expectedValue) {
 		return oldValue, false, nil
 	}
 
